@@ -151,3 +151,34 @@ Example C11_replay_nonvacuous :
   length (events_of w demo_replay_ops) = 9.
 Proof. split; [exact demo_replay_pre|exact demo_replay_result]. Qed.
 Print Assumptions C11_replaying_events_rebuilds_the_world.
+
+(** ** ... with batch operations in the history (Batch.Add / Remove / Exchange,
+    Relations.ExchangeBatch, Batch.SetRelation, Batch.RemoveEntities with unregistered filters,
+    Builder.NewBatch of id builders):
+    the events of a batch touch pairwise distinct entities, each carrying the difference of
+    that entity's component sets, so the shadow rebuilt from the events alone still holds
+    exactly the alive entities with the component sets the world reports. *)
+From Arche Require Import Proofs.BatchHist Proofs.EventReplayBatch.
+Theorem C11_replay_step_with_batches : forall w A S o,
+  inv3 w A -> w_listener w = Some lall -> op_preEB w A o -> shadow_ok A S ->
+  let r := step w o in
+  shadow_ok (astep_b w A o (snd (fst r))) (sh_replay S (snd r)) /\ w_listener (fst (fst r)) = Some lall /\
+  inv3 (fst (fst r)) (astep_b w A o (snd (fst r))).
+Proof. exact replay_step_b. Qed.
+
+Theorem C11_replaying_events_rebuilds_the_world_with_batches : forall ops w A S,
+  inv3 w A -> w_listener w = Some lall -> shadow_ok A S -> pre_runEB w A ops ->
+  let w' := run w ops in let A' := arun4 w A ops in let S' := sh_replay S (events_of w ops) in
+  (forall e, e ∈ as_live A' -> assoc_get e S' = ent_mask w' e) /\
+  (forall e, e ∉ as_live A' -> assoc_get e S' = None).
+Proof. exact replay_rebuilds_world_b. Qed.
+
+Example C11_replay_with_batches_nonvacuous :
+  let w := run (world_init 2 2 64) demo_replay_setup in
+  let A := snd (arun (world_init 2 2 64) a_init demo_replay_setup) in
+  (w_listener w = Some lall /\ pre_runEB w A demo_replay_b_ops) /\
+  sh_replay [] (events_of w demo_replay_b_ops) =
+    [(mkE 6 0, 5%N); (mkE 5 0, 5%N); (mkE 2 1, 4%N); (mkE 4 0, 3%N); (mkE 3 0, 3%N); (mkE 1 0, 0%N)] /\
+  length (events_of w demo_replay_b_ops) = 15.
+Proof. split; [exact demo_replay_b_pre|exact demo_replay_b_result]. Qed.
+Print Assumptions C11_replaying_events_rebuilds_the_world_with_batches.
